@@ -121,7 +121,7 @@ func partC04H(a *hcli.Args, rep *report.Report, univName string, u *schema.Unive
 	}
 	strs := shortStrings(sigma, L)
 	subst := []byte{'(', ')', ',', ':', '"', '{', '}', '[', ']', '\\', 0x00, 0xff, '%', '&', '=', ' '}
-	sq.Bounds = fmt.Sprintf("every method of every resource: the valid request sent by the generated client with (a) an extra query parameter whose value is each of the %d strings of <=%d symbols over %v, the whole query replaced by each of them, every truncation / single-byte edit of the valid query; (b) the entity key segment replaced by each of the strings; (c) every truncation and single-byte deletion / substitution (%d bytes) of the JSON body; (d) method / content-type / protocol-version header variants; oracle: no panic escapes, status < 500, no stack trace; when a declared parameter loses its parenthesis balance, or the body is a non-empty strict prefix that is not JSON: 4xx and no resource invocation", len(strs), L, sigma, len(subst))
+	sq.Bounds = fmt.Sprintf("every method of every resource: the valid request sent by the generated client with (a) an extra query parameter whose value is each of the %d strings of <=%d symbols over %v, the whole query replaced by each of them, every truncation / single-byte edit of the valid query; (b) the entity key segment replaced by each of the strings; (c) every truncation and single-byte deletion / substitution (%d bytes) of the JSON body; (d) method / content-type / protocol-version header variants; (e) tunnelled envelopes (both parts, one part missing, none, foreign part, doubled, unterminated, truncated every 7 bytes, form-encoded, no boundary); oracle: no panic escapes, status < 500, no stack trace; when a declared parameter loses its parenthesis balance, or the body is a non-empty strict prefix that is not JSON: 4xx and no resource invocation", len(strs), L, sigma, len(subst))
 	sr.Bounds = "every method of every resource: the valid response with every truncation / single-byte edit of its body, X-RestLi-Id and Location replaced by each short ROR2 string, error-header / status / content-type variants; oracle: the generated client call returns (value or error) and never panics"
 	w := NewWorld(u, DefaultConfig)
 	failq := func(kind string, r *schema.Resource, m *schema.Method, what, detail string, raw []byte) {
@@ -253,6 +253,44 @@ func partC04H(a *hcli.Args, rep *report.Report, univName string, u *schema.Unive
 				}
 				send("header-replaced", joinRaw(line, append(hs, hv), body), false)
 				send("header-removed", joinRaw(line, hs, body), false)
+			}
+
+			// (e) tunnelled envelopes: well-formed, with a part missing, empty, with foreign parts, truncated
+			{
+				var hs []string
+				for _, h := range headers {
+					lh := strings.ToLower(h)
+					if !strings.HasPrefix(lh, "content-type:") && !strings.HasPrefix(lh, "content-length:") {
+						hs = append(hs, h)
+					}
+				}
+				hs = append(hs, "X-HTTP-Method-Override: "+verb)
+				q := query
+				if q == "" {
+					q = "zz=1"
+				}
+				jsonBody := string(body)
+				if jsonBody == "" {
+					jsonBody = "{}"
+				}
+				form := "--B\r\nContent-Type: application/x-www-form-urlencoded\r\n\r\n" + q + "\r\n"
+				jpart := "--B\r\nContent-Type: application/json\r\n\r\n" + jsonBody + "\r\n"
+				other := "--B\r\nContent-Type: text/plain\r\n\r\nhello\r\n"
+				envs := map[string]string{
+					"tunnel-both-parts": form + jpart + "--B--\r\n", "tunnel-only-query-part": form + "--B--\r\n", "tunnel-only-json-part": jpart + "--B--\r\n",
+					"tunnel-no-parts": "--B--\r\n", "tunnel-foreign-part": form + other + jpart + "--B--\r\n", "tunnel-empty-body": "", "tunnel-garbage": "not a multipart body",
+					"tunnel-two-query-parts": form + form + jpart + "--B--\r\n", "tunnel-unterminated": form + jpart,
+				}
+				for name, env := range envs {
+					send(name, joinRaw("POST "+path+" "+proto, append(append([]string{}, hs...), "Content-Type: multipart/mixed; boundary=B"), []byte(env)), false)
+				}
+				whole := form + jpart + "--B--\r\n"
+				for i := 0; i < len(whole); i += 7 {
+					send("tunnel-truncated", joinRaw("POST "+path+" "+proto, append(append([]string{}, hs...), "Content-Type: multipart/mixed; boundary=B"), []byte(whole[:i])), false)
+				}
+				send("tunnel-form", joinRaw("POST "+path+" "+proto, append(append([]string{}, hs...), "Content-Type: application/x-www-form-urlencoded"), []byte(q)), false)
+				send("tunnel-form-empty", joinRaw("POST "+path+" "+proto, append(append([]string{}, hs...), "Content-Type: application/x-www-form-urlencoded"), nil), false)
+				send("tunnel-no-boundary", joinRaw("POST "+path+" "+proto, append(append([]string{}, hs...), "Content-Type: multipart/mixed"), []byte(whole)), false)
 			}
 
 			// ---- responses
